@@ -206,6 +206,43 @@ pub fn run(ctx: &mut Ctx) {
             }
         }
     }
+    // range-preserving, end to end: a balance that `apply_payment` returns is one the pay proof's range constraint
+    // can be built for (it is decomposed into nine base-128 digits there).  Results whose digits are 0 / 1 / 127 in
+    // every pattern (powers of 128 and their neighbours), the lattice, and random ones.
+    {
+        let (rp, _rpd, _, _) = crate::rangelab::rp_decoded(ctx);
+        let mut results: Vec<u64> = lat.iter().cloned().filter(|v| *v <= I64MAX).collect();
+        for k in 1..9u32 {
+            let p = 1u64 << (7 * k);
+            results.extend([p - 1, p, p + 1, p + (p >> 7) - 1, p + (p >> 7), 2 * p - 1, 2 * p, 127 * p, 127 * p + (p - 1)].iter().filter(|v| **v <= I64MAX));
+        }
+        for _ in 0..(if ctx.thorough() { 200 } else { 12 }) { let v: u64 = ctx.prng.gen(); results.push((v >> 1) >> ctx.prng.gen_range(0..63)); }
+        for (j, &v) in results.iter().enumerate() {
+            idx += 1;
+            if !ctx.begin_case(idx, "result-provable") {
+                continue;
+            }
+            // reach v as the customer's or the merchant's new balance by a payment of a random admissible amount
+            let as_customer = j % 2 == 0;
+            let room = I64MAX - v;
+            let a_mag = if room == 0 { 0 } else { ctx.prng.gen_range(0..=room.min(1 << 40)) };
+            let (cb, mb, amt) = if as_customer { (v + a_mag, ctx.prng.gen_range(0..=(I64MAX - a_mag).min(1 << 50)), a_mag as i64) } else { (ctx.prng.gen_range(a_mag..=a_mag + (1 << 30)), v + a_mag, -(a_mag as i64)) };
+            triple(ctx, &cid, cb, mb, amt);
+            let want = match reference(cb, mb, amt) { Ok(x) => x, Err(_) => continue };
+            for (who, bal) in [("customer", want.0), ("merchant", want.1)] {
+                ctx.evals += 1;
+                let mut rng = rand_chacha::ChaCha20Rng::seed_from_u64(ctx.prng.gen());
+                let r = catch_unwind(AssertUnwindSafe(|| zkchannels_crypto::proofs::RangeConstraintBuilder::generate_constraint_commitments(bal as i64, &rp, &mut rng).is_ok()));
+                ctx.count(&format!("result-provable:{}", match r { Ok(true) => "built", Ok(false) => "REFUSED", Err(_) => "PANIC" }));
+                if !matches!(r, Ok(true)) {
+                    ctx.violation(
+                        &format!("the {} balance {} returned by apply_payment(cb={}, mb={}, amt={}) lies in [0, 2^63-1] but the range constraint for it {}", who, bal, cb, mb, amt, if r.is_err() { "panics" } else { "is refused" }),
+                        json!({"class": "result-not-provable", "balance": bal, "cb": cb, "mb": mb, "amt": amt}),
+                    );
+                }
+            }
+        }
+    }
     let n = if ctx.thorough() { 1_000_000 } else { 20_000 };
     for _ in 0..n {
         idx += 1;
